@@ -770,6 +770,32 @@ pub fn corner_extras() -> Vec<SysSpec> {
         sp.outputs = vec![("en_o".into(), f()), ("data_o".into(), bb()), ("sum_o".into(), b(Bin::Add, a(), bb()))];
         out.push(sp);
     }
+    // independent parts: a constraint over a part the bad state does not depend on ends every execution before
+    // the bad state is reached; an input that reaches a constraint only through a register and is outside
+    // the cone of the bad state; a bad state over inputs only, tied to a state by a constraint
+    out.push(mk(
+        "X-indep",
+        vec![],
+        vec![st("a2", 2, Some(l(2, 0)), Some(inc(a()))), st("b2", 2, Some(l(2, 0)), Some(inc(bb())))],
+        vec![b(Bin::Eq, a(), l(2, 3))],
+        vec![T::not(b(Bin::Eq, bb(), l(2, 2)))],
+    ));
+    out.push(mk(
+        "X-indep",
+        vec![("b1", 1)],
+        vec![st("a2", 2, Some(l(2, 0)), Some(inc(a()))), st("a1", 1, Some(l(1, 1)), Some(f()))],
+        vec![b(Bin::Eq, a(), l(2, 2))],
+        vec![e()],
+    ));
+    out.push(mk(
+        "X-indep",
+        vec![("b1", 1), ("c2", 2)],
+        vec![st("a2", 2, Some(l(2, 0)), Some(b(Bin::Add, a(), T::ZExt(1, Box::new(f()))))), st("b2", 2, Some(l(2, 1)), Some(c()))],
+        vec![b(Bin::Eq, a(), l(2, 2))],
+        vec![T::not(b(Bin::Eq, bb(), l(2, 0)))],
+    ));
+    out.push(mk("X-inputbad", vec![("b2", 2)], vec![st("a2", 2, Some(l(2, 0)), Some(inc(a())))], vec![b(Bin::Eq, bb(), l(2, 2))], vec![b(Bin::Eq, bb(), a())]));
+    out.push(mk("X-inputbad", vec![("b2", 2)], vec![st("a2", 2, Some(l(2, 0)), Some(inc(a())))], vec![b(Bin::Eq, bb(), l(2, 3)), b(Bin::Eq, bb(), l(2, 1))], vec![b(Bin::Eq, bb(), a())]));
     // deep counterexamples: two-digit step numbers (names `x@10`, frame numbers, loop bounds)
     {
         let a4 = || s("a4", 4);
